@@ -370,6 +370,7 @@ def disk_records(tag, j, g, rng, tmpdir):
                        what=f"{conv} ({g.name})"))
 
     p = lambda name: os.path.join(tmpdir, f"{tag}.{name}")  # noqa: E731
+    N0, N1 = g.node(0), g.node(1)
 
     def hif(net, name):
         xgi.write_hif(net, p(name))
@@ -379,6 +380,36 @@ def disk_records(tag, j, g, rng, tmpdir):
     S = xgi.SimplicialComplex(H)
     ssrc, _ = hg.proj(S, g)
     add("hif(SimplicialComplex)", "everything", lambda: hif(S, "hifsc.json"), cls=xgi.SimplicialComplex, source=ssrc)
+    # a complex assembled by its own mutators (not by the converter the reader uses too): isolated nodes
+    # with and without attributes, attributes on some simplices
+    S2 = xgi.SimplicialComplex()
+    S2.add_nodes_from(list(H.nodes))
+    with warnings.catch_warnings():
+        warnings.simplefilter("ignore")
+        S2.add_simplices_from([list(H._edge[e]) for e in H.edges if H._edge[e]])
+    for n in list(S2.nodes)[-1:]:
+        S2.nodes[n]["color"] = 3
+    s2src, _ = hg.proj(S2, g)
+    add("hif(SimplicialComplex built by add_simplices_from)", "everything", lambda: hif(S2, "hifsc2.json"),
+        cls=xgi.SimplicialComplex, source=s2src)
+
+    # a write that is refused (a value JSON cannot represent) writes nothing: the file still reads back as
+    # the network written before
+    def refused(write, name):
+        write(H, p(name))
+        K = H.copy()
+        K["unserialisable"] = {1, 2}
+        try:
+            write(K, p(name))
+        except Exception:  # noqa: BLE001
+            return True
+        return False
+    try:
+        was_refused = refused(xgi.write_hif, "hif_refused.json")
+    except Exception:  # noqa: BLE001 - the first write failing is reported by the plain round trip above
+        was_refused = False
+    if was_refused:
+        add("hif(file after a refused second write)", "everything", lambda: xgi.read_hif(p("hif_refused.json")))
 
     def hif_coll():
         d = os.path.join(tmpdir, f"{tag}.coll")
@@ -388,12 +419,20 @@ def disk_records(tag, j, g, rng, tmpdir):
         return back["a"]
     add("hif_collection", "everything", hif_coll)
 
+    # dataset names are free text: names that differ only in blanks / punctuation are different datasets
+    def hif_coll_names(which):
+        d = os.path.join(tmpdir, f"{tag}.coll3")
+        os.makedirs(d, exist_ok=True)
+        other = xgi.Hypergraph([[N0, N1]])
+        xgi.write_hif_collection({"wave 1": H, "wave_1": other, "wave-1": other, "Wave 1": other}, d, collection_name="c")
+        return xgi.read_hif_collection(os.path.join(d, "c_collection_information.json"))[which]
+    add("hif_collection(names with blanks)", "everything", lambda: hif_coll_names("wave 1"))
+
     def hif_coll_second():  # the member written after H carries no attribute at all
         d = os.path.join(tmpdir, f"{tag}.coll2")
         os.makedirs(d, exist_ok=True)
         xgi.write_hif_collection({"a": H, "b": xgi.Hypergraph([[N0, N1]])}, d, collection_name="c")
         return xgi.read_hif_collection(os.path.join(d, "c_collection_information.json"))["b"]
-    N0, N1 = g.node(0), g.node(1)
     bsrc, _ = hg.proj(xgi.Hypergraph([[N0, N1]]), g)
     add("hif_collection(second member)", "everything", hif_coll_second, source=bsrc)
     if not mixed_edge_kinds:
